@@ -88,6 +88,11 @@ CLAIMED["C11"] = ("static must-check rule over go/cfg for every (value, ok|err) 
   "All value-level laws (bucket, clamp, csv quoting, separators, unit scaling) are not decided.",
   "DESIGN.md §3 C11")
 
+CLAIMED["C18"] = ("static: evaluation of the quarter expression from its AST for all 12 months, zone-wiring rules (time.Unix followed by In(tz), zone-aware parses only), ISO week/year pairing rule, no float-to-Duration conversion, must-check rule for parse failures in funcsTime.go",
+  "Decides one range clause exactly (quarter is 1..4 with Jan-Mar = 1, by evaluating the expression over its whole finite domain) and the wiring clauses: requested zone reaches every parse and every formatted instant, ISO week paired with ISO year, durations from whole numbers, unparseable input yields the marker.",
+  "Trusts package time / dateparse for the calendar itself. Format round trip and bucket layouts are not decided.",
+  "DESIGN.md §3 C18")
+
 PENDING_REASON = "static check for this property is designed in DESIGN.md §3 but not yet built in this revision of /verif; not claimed until it runs"
 
 def main():
